@@ -1251,6 +1251,11 @@ def run_case(line):
         return run_path(c[1], c[2], c[3:])
     if k == 'uop':
         return run_uop(*c[1:])
+    if k == 'uun':
+        def un():
+            a = UINT_BY_W[int(c[2])](int(c[3]))
+            return res_str({'neg': lambda v: -v, 'pos': lambda v: +v, 'abs': abs}[c[1]](a))
+        return 'p.r=%s' % E(un)
     if k == 'upow3':
         # three-argument power; the modulus is a plain int or (every second time, when it fits) a uint of another width
         def pow3():
